@@ -51,9 +51,23 @@ func New() *Shared {
 	return s
 }
 
+// NewPlain is New with zero-valued option structs: minifiers that copy their option struct only
+// when some option is set work directly on the shared one here.
+func NewPlain() *Shared {
+	s := &Shared{M: minify.New(), HTML: &html.Minifier{}, CSS: &css.Minifier{}, SVG: &svg.Minifier{}, JS: &js.Minifier{}, JSON: &mjson.Minifier{}, XML: &xml.Minifier{}}
+	s.M.Add("text/css", s.CSS)
+	s.M.Add("text/html", s.HTML)
+	s.M.Add("image/svg+xml", s.SVG)
+	s.M.AddRegexp(regexp.MustCompile("^(application|text)/(x-)?(java|ecma)script$"), s.JS)
+	s.M.AddRegexp(regexp.MustCompile("[/+]json$"), s.JSON)
+	s.M.AddRegexp(regexp.MustCompile("[/+]xml$"), s.XML)
+	return s
+}
+
 // Snapshot is a deep textual snapshot of every user-owned option struct.
 func (s *Shared) Snapshot() string {
-	return fmt.Sprintf("html=%+v css=%+v svg=%+v js=%+v json=%+v xml=%+v", *s.HTML, *s.CSS, *s.SVG, *s.JS, *s.JSON, *s.XML)
+	// %#v: also tells a nil slice from an empty one (a lazily allocated scratch buffer)
+	return fmt.Sprintf("html=%#v css=%#v svg=%#v js=%#v json=%#v xml=%#v", *s.HTML, *s.CSS, *s.SVG, *s.JS, *s.JSON, *s.XML)
 }
 
 // Call is one entry of the alphabet; Run returns "output|error".
